@@ -6,7 +6,7 @@
 
 use std::convert::TryFrom;
 
-use anyhow::{format_err, Error};
+use anyhow::{bail, format_err, Error};
 use roxmltree::Node;
 
 use crate::utils::xml::{
@@ -45,7 +45,7 @@ impl TryFrom<&str> for EquipmentKind {
     }
 }
 
-pub fn parse_systems(doc: &roxmltree::Document) -> (Vec<String>, Vec<VypSystem>) {
+pub fn parse_systems(doc: &roxmltree::Document) -> Result<(Vec<String>, Vec<VypSystem>), Error> {
     // Definición de sistemas en VyP - Solución temporal sin descender en elementos
     let systems = doc
         .descendants()
@@ -72,8 +72,9 @@ pub fn parse_systems(doc: &roxmltree::Document) -> (Vec<String>, Vec<VypSystem>)
                 n.children()
                     .filter(roxmltree::Node::is_element)
                     .map(build_system)
-                    .collect()
+                    .collect::<Result<Vec<_>, Error>>()
             })
+            .transpose()?
             .unwrap_or_default(),
         None => vec![],
     };
@@ -88,7 +89,7 @@ pub fn parse_systems(doc: &roxmltree::Document) -> (Vec<String>, Vec<VypSystem>)
         sistemas.append(&mut onsiteprod);
     }
 
-    (factores_correccion_sistemas, sistemas)
+    Ok((factores_correccion_sistemas, sistemas))
 }
 
 /// Genera sistema a partir de su nodo XML
@@ -97,7 +98,7 @@ pub fn parse_systems(doc: &roxmltree::Document) -> (Vec<String>, Vec<VypSystem>)
 /// - HVACTemplate:System:UnitarySystem (el unizona y multizona de aire)
 /// - HVACTemplate:System:DualDuct (el multizona de conductos)
 /// - ¿para ACS?
-fn build_system(node: roxmltree::Node) -> VypSystem {
+fn build_system(node: roxmltree::Node) -> Result<VypSystem, Error> {
     let kind = node.tag_name().name().to_string();
     let name = get_tag_as_str(&node, "nombre_usuario").to_string();
     let multiplier = get_tag_as_u32_or(&node, "multiplicador", 1);
@@ -135,13 +136,17 @@ fn build_system(node: roxmltree::Node) -> VypSystem {
                 .collect()
         });
 
-    match kind.as_str() {
+    let sysname = name.clone();
+    let syskind = kind.clone();
+    let missing = move |what: &str| format_err!("Sistema {} ({}) sin definición de {}", sysname, syskind, what);
+
+    Ok(match kind.as_str() {
         "SIS_Acs" => VypSystem::Dhw {
             name,
             multiplier,
             // ignoramos este dato ya que es redundante con el de la demanda
             // dhw_supply_temp: get_tag_as_f32(&node, "tImpulsion").unwrap(),
-            dhw_demand: dhw_demand.unwrap(),
+            dhw_demand: dhw_demand.ok_or_else(|| missing("demandas"))?,
             equipment,
         },
         "SIS_Mixto" | "SIS_CalefaccionPorAgua" => {
@@ -158,7 +163,7 @@ fn build_system(node: roxmltree::Node) -> VypSystem {
                 heating_supply_temp,
                 dhw_demand,
                 equipment,
-                zone_equipment: zone_equipment.unwrap(),
+                zone_equipment: zone_equipment.ok_or_else(|| missing("unidades terminales"))?,
             }
         }
         "SIS_ClimatizacionUnizona" => {
@@ -176,7 +181,7 @@ fn build_system(node: roxmltree::Node) -> VypSystem {
             let has_heat_recovery = ["Sí tiene", "Si", "Sí"].contains(
                 &get_tag_text(&node, "recuperacionCalor")
                     .map(|s| s.trim().trim_matches('"'))
-                    .unwrap(),
+                    .unwrap_or_default(),
             );
             // Solo conductos 2
             let heat_recovery_eff = get_tag_as_f32_or_default(&node, "eficienciaRecuperador");
@@ -213,11 +218,11 @@ fn build_system(node: roxmltree::Node) -> VypSystem {
                 return_air_flow,
                 options,
                 equipment,
-                zone_equipment: zone_equipment.unwrap(),
+                zone_equipment: zone_equipment.ok_or_else(|| missing("unidades terminales"))?,
             }
         }
-        _ => panic!("Sistema de tipo desconocido: {}", kind),
-    }
+        _ => bail!("Sistema de tipo desconocido: {}", kind),
+    })
 }
 
 /// Genera demanda de ACS a partir de su nodo XML
